@@ -57,6 +57,9 @@ EXC_PARENT = {
 }
 EXT_ALIASES = {
     'socket.timeout': 'socket.timeout',
+    'socket.error': 'OSError',      # Python 3: socket.error is OSError
+    'IOError': 'OSError',
+    'EnvironmentError': 'OSError',
     'ConnectionError': 'ConnectionError',
     'concurrent.futures.CancelledError': 'concurrent.futures.CancelledError',
     'concurrent.futures._base.CancelledError': 'concurrent.futures.CancelledError',
